@@ -1,4 +1,9 @@
+pub mod acc;
 pub mod case;
+pub mod conc;
+pub mod lin12;
+pub mod sched;
+pub mod stress;
 pub mod check;
 pub mod exec;
 pub mod gen;
